@@ -317,7 +317,7 @@ pub fn gen(tier: Tier, r: &mut Rng, emit: &mut dyn FnMut(String)) {
             emit(format!("C12 run 0 {} {}", hex_bytes(&t), qs.join(",")));
         }
     }
-    // finding F10 stream (kept apart so that its known-finding class can never mask anything else):
+    // regression stream for former finding F10 (to_offset wrapped; fixed by checked_add):
     // requests made ONLY of to_offset queries whose column exceeds 2^64 - 2^32
     for _ in 0..(n_texts / 20) {
         let t = gen_text(r, 3, 200);
